@@ -195,6 +195,30 @@ func main() {
 		for _, o := range s.Obs {
 			fmt.Println(o.V, o.Rule, o.Key, "::", o.Detail)
 		}
+	case "k1op":
+		rules.K1op(rc, []string{"api_arith.go", "api_cmp.go", "api_unary.go", "api_minmax.go", "dense_arith.go", "dense_cmp.go", "defaultengine_arith.go", "defaultengine_cmp.go", "defaultengine_unary.go", "defaultengine_minmax.go"}, 0)
+		n := 0
+		for _, o := range s.Obs {
+			if o.Verdict != core.OK {
+				fmt.Println(o.V, o.Rule, o.Key, "::", o.Detail)
+			} else {
+				n++
+			}
+		}
+		fmt.Println("ok", n)
+	case "m4":
+		rules.M4(rc, nil, 0)
+		rules.K11(rc)
+		rules.K5(rc, map[string]bool{"eng_arith.go": true, "eng_cmp.go": true, "eng_unary.go": true, "eng_minmaxbetween.go": true, "eng_map.go": true, "eng_reduce.go": true, "eng_argmethods.go": true, "reduction_specialization.go": true}, 0)
+		n := 0
+		for _, o := range s.Obs {
+			if o.Verdict != core.OK {
+				fmt.Println(o.V, o.Rule, o.Key, "::", o.Detail)
+			} else {
+				n++
+			}
+		}
+		fmt.Println("ok", n)
 	case "k1w":
 		rules.K1w(rc, nil, 0)
 		for _, o := range s.Obs {
